@@ -26,6 +26,18 @@ Definition step_wf (s : hstep) : bool :=
 Definition cache_free (h : list hstep) : bool :=
   forallb (fun s => match s with HBuild c _ _ => negb c | HWipe => true end) h.
 
+(* no build of the history rebuilt a target with output_dirs after the post-build check, i.e. with the outputs of
+   an old metadata file still attached (Engine.stale_flow): the known defect class of such targets, executable *)
+Fixpoint quiet_history (h : list hstep) (st : store) : bool :=
+  match h with
+  | [] => true
+  | s :: rest =>
+      (match s with HBuild c r req => negb (plz_stale c r req st) | HWipe => true end)
+      && quiet_history rest (do_hstep st s)
+  end.
+(* the cache of targets with output_dirs is not modelled: the cache theorems (C02) exclude them *)
+Definition od_free (h : list hstep) : Prop := forall t, In t (history_targets h) -> could_modify t = false.
+
 (* the rule key identifies the definition throughout the history (the C08 assumption: the generator avoids
    the collision classes of the unframed rule-hash stream) *)
 Definition defkeys_consistent (ts : list target) : Prop :=
@@ -48,3 +60,10 @@ Definition wit_target (srcs : list str) (key : str) : target :=
   mkT (s "//p:d") (s "p") (Genrule CopyDir) (map SFile srcs) [s "d_dir"] key.
 Definition wit_r1 : repo := mkR [(s "p/a.txt", s "x")] [wit_target [s "a.txt"] (s "k1")].
 Definition wit_r2 : repo := mkR [(s "p/b.txt", s "x")] [wit_target [s "b.txt"] (s "k2")].
+
+(* the 3-step witness of the output_dirs refutation: t copies its sources into _o; tree A: srcs [a.txt], declared out
+   m1; tree B: srcs [a.txt, b.txt], declared out m2; then tree A again *)
+Definition od_target (srcs : list str) (out key : str) : target :=
+  mkT (s "//p:t") (s "p") (Genrule OutDir) (map SFile srcs) [out] key.
+Definition od_rA : repo := mkR [(s "p/a.txt", s "A"); (s "p/b.txt", s "B")] [od_target [s "a.txt"] (s "m1") (s "kA")].
+Definition od_rB : repo := mkR [(s "p/a.txt", s "A"); (s "p/b.txt", s "B")] [od_target [s "a.txt"; s "b.txt"] (s "m2") (s "kB")].
